@@ -161,6 +161,11 @@ def run_pdfs(spec, rec, dadi, DFE):
             own = np.outer(ssd.gamma.pdf(xx, a1, scale=b1), ssd.gamma.pdf(yy, a2, scale=b2))
             rec.close("biv_ind_gamma-reference", float(np.max(np.abs(np.asarray(got).reshape(own.shape) - own))) / max(float(np.max(own)), 1e-300), 1e-9,
                       site="PDFs.biv_ind_gamma", tags=tags)
+            # the library's own pure-Python version is a third opinion
+            okp, gpy = rec.noraise("pdf-returns", lambda: PDFs.biv_ind_gamma_py(xx, yy, pg), site="PDFs.biv_ind_gamma_py", tags=tags)
+            if okp:
+                rec.close("biv_ind_gamma-reference", float(np.max(np.abs(np.squeeze(np.asarray(gpy)).reshape(own.shape) - own))) / max(float(np.max(own)), 1e-300), 1e-9,
+                          site="PDFs.biv_ind_gamma_py", tags=dict(tags, ref="own"))
         # scalar arguments
         ok, s = rec.noraise("pdf-returns", lambda: PDFs.biv_lognormal(float(xx[0]), float(yy[0]), pl), site="PDFs.biv_lognormal", tags=tags)
         if ok:
